@@ -222,6 +222,9 @@ func (e *Expr) CompileExpr(terms ast.Expr, env0 *types.Env) compiler.Closure {
 
 func (e *Expr) makeCallable(closure compiler.Closure, env0 *types.Env) Callable {
 	return func(v interface{}) (vl *val.Val, err error) {
+		// run-time failures (index out of range, missing key, modulo by zero,
+		// invalid pattern, ...) are reported through err, like compile errors
+		defer e.backStrace("eval", &err)
 		env1, ok := v.(*val.Env)
 		if !ok {
 			env1, err = conv.ValEnvOf(v)
